@@ -131,6 +131,11 @@ impl Prop for C02 {
         let fl = flat(&ep);
         let fm = m.flat();
         let den = (m.b[0] + m.b[1]).abs();
+        // a total that is exactly zero (no weighted energy at all): RER is defined as 0, not 0/0
+        if m.b[0] == 0.0 && m.b[1] == 0.0 && ep.balance.we.b.ren == 0.0 && ep.balance.we.b.nren == 0.0 {
+            ensure!(ep.rer == 0.0, "model", "RER = {} for a building whose total primary energy is exactly zero (defined as 0)", ep.rer);
+            ctx.label("zero_total");
+        }
         let skipped = compare_flats(
             &fl,
             &fm,
